@@ -53,6 +53,9 @@ CHECKS = {
  "C20": dict(cat="exploration", tech="scripted-peer monitor of Client.Connect results and callback dispatch; goroutine-snapshot leak check",
    text="27 CONNACK answers and hundreds of generated subscribe/unsubscribe/inbound-publish sessions; per-request callback invocation counts are compared with the MQTT matcher after a protocol barrier; goroutine snapshots show no library frame after failed Connect / Disconnect.",
    note="real TCP on 127.0.0.1; leak check by stack frames under the library import path", ref="3/C20"),
+ "C16": dict(cat="fault_enumeration", tech="enumerated teardown matrix at synctest quiescence; teardown-finished hook events, witness client, goroutine-snapshot leak check, process-wide deadlock watchdog",
+   text="All 160 cause x buffer-condition x order x will x CleanSession cells are executed against the real broker with really full rings (clients that stop reading); completion of teardown is decided from hook events and goroutine state at quiescence.",
+   note="bounded time = quiescence reached with all goroutines gone; watchdog expiry without an all-parked snapshot is inconclusive", ref="3/C16"),
 }
 PENDING = {}
 ALL = ["C%02d" % i for i in range(1, 21)]
